@@ -136,6 +136,12 @@ func ReadRespBody(resp *protocol.Response, r network.Reader, maxBodySize int) (e
 		if err != nil && err != io.EOF {
 			return err
 		}
+		if err == io.EOF {
+			// The peer closed instead of ending the trailer section. The body is
+			// complete and is delivered, but the connection is gone (and may still
+			// hold the bytes of a trailer line): it must not be used again.
+			resp.Header.SetConnectionClose(true)
+		}
 	}
 	resp.Header.SetContentLength(len(bodyBuf.B))
 	return nil
